@@ -14,6 +14,7 @@ import (
 	"bytes"
 	"crypto/elliptic"
 	"crypto/sha256"
+	"encoding/binary"
 	"encoding/json"
 	"fmt"
 	"math/rand"
@@ -372,7 +373,19 @@ func c18Mutate(out *ndWriter, n int, rng *rand.Rand) {
 	eenc, _ := sha2pc.EncodeEvaluatorSession(curve, s.es)
 	mut := func(b []byte) []byte {
 		c := append([]byte(nil), b...)
-		switch rng.Intn(5) {
+		switch rng.Intn(6) {
+		case 5: // a length prefix replaced by a boundary varint (lengths are uvarints; the framing sits in the first bytes)
+			vals := []uint64{1 << 63, 1<<64 - 1, 1<<63 + 5, 1 << 62, 1 << 32, 1<<31 - 1, 1 << 24, 0}
+			var vb [binary.MaxVarintLen64]byte
+			k := binary.PutUvarint(vb[:], vals[rng.Intn(len(vals))])
+			at := rng.Intn(min(48, len(c)))
+			if rng.Intn(2) == 0 {
+				// overwrite in place
+				c = append(append(append([]byte(nil), c[:at]...), vb[:k]...), c[min(len(c), at+k):]...)
+			} else {
+				// replace the one-byte length that is there
+				c = append(append(append([]byte(nil), c[:at]...), vb[:k]...), c[min(len(c), at+1):]...)
+			}
 		case 0:
 			c[rng.Intn(len(c))] ^= 1 << uint(rng.Intn(8))
 		case 1:
